@@ -94,7 +94,10 @@ func ResolveRelativeSource(a, b Source) (Source, error) {
 	case LocalSource:
 		aRaw := a.relPath
 		new := path.Join(aRaw, bRaw)
-		if !looksLikeLocalSource(new) {
+		switch {
+		case new == "." || new == "..":
+			new += "/" // the canonical forms of these are "./" and "../"
+		case !looksLikeLocalSource(new):
 			new = "./" + new // preserve LocalSource's prefix invariant
 		}
 		return LocalSource{relPath: new}, nil
